@@ -135,6 +135,33 @@ type Script struct {
 	Idle      bool   `json:"idle,omitempty"`
 	Then      string `json:"then,omitempty"`
 	ThenStyle string `json:"then_style,omitempty"` // inplace, rename
+	// PEMStyle: how the files of the settled pair are spelled: "" (LF), "crlf" (as Windows tooling exports them),
+	// "trailing-text" (a comment line behind the last block), "no-final-newline". crypto/tls reads them all.
+	PEMStyle string `json:"pem_style,omitempty"`
+	// OutageMs > 0: ahead of the settled pair the key file is left half-written for that long (a slow, non-atomic
+	// deployment); nothing loadable is on disk meanwhile
+	OutageMs int `json:"outage_ms,omitempty"`
+}
+
+// pemStyle: spelling of the "full" files of one pair (set per case before anything is written)
+var pemStyle struct {
+	pair  int
+	style string
+}
+
+func styled(b []byte, k int) []byte {
+	if k != pemStyle.pair || pemStyle.style == "" {
+		return b
+	}
+	switch pemStyle.style {
+	case "crlf":
+		return bytes.ReplaceAll(b, []byte("\n"), []byte("\r\n"))
+	case "trailing-text":
+		return append(append([]byte{}, b...), []byte("# issued for the verification rig\n")...)
+	case "no-final-newline":
+		return bytes.TrimRight(b, "\n")
+	}
+	return b
 }
 
 var col = vstat.New("C14", "c14.reload")
@@ -199,6 +226,10 @@ func gen(t *rapid.T) Script {
 		s.Churn = rapid.IntRange(20, 60).Draw(t, "nchurn")
 	}
 	s.Idle = s.Churn == 0 && rapid.IntRange(0, 3).Draw(t, "idle") == 0
+	s.PEMStyle = rapid.SampledFrom([]string{"", "", "", "crlf", "crlf", "trailing-text", "no-final-newline"}).Draw(t, "pemStyle")
+	if rapid.IntRange(0, 11).Draw(t, "outage") == 0 {
+		s.OutageMs = rapid.SampledFrom([]int{1200, 2600, 3500}).Draw(t, "outageMs")
+	}
 	if s.Layout != "k8s" {
 		s.Settle.Blockwise = (s.Settle.Style == "inplace-key-first") && rapid.Bool().Draw(t, "blockwise")
 		s.Then = rapid.SampledFrom([]string{"", "", "alt-chain", "renewal"}).Draw(t, "then")
@@ -256,7 +287,7 @@ func content(file, kind string, k int) []byte {
 	case "garbage":
 		return []byte("-----BEGIN GARBAGE-----\nnot a pem block at all\n")
 	}
-	return b
+	return styled(b, k)
 }
 
 func (w *world) path(file string) string {
@@ -318,7 +349,7 @@ func (w *world) apply(st Step) {
 		if st.Content == "pair" {
 			w.markFull("cert", st.Pair)
 			w.markFull("key", st.Pair)
-			w.swap(p.cert, p.key)
+			w.swap(styled(p.cert, st.Pair), styled(p.key, st.Pair))
 		} else {
 			w.swap(p.cert, getPairs()[st.Pair+1].key) // certificate and key that do not belong together
 		}
@@ -362,6 +393,7 @@ func handshakeSerial(cw *certwatcher.CertWatcher) (int64, error) {
 
 func exec(s Script) (v *vstat.Violation, classes []string) {
 	ps := getPairs()
+	pemStyle.pair, pemStyle.style = s.Settle.Pair, s.PEMStyle
 	dir, err := os.MkdirTemp("", "verif-c14-")
 	if err != nil {
 		return nil, []string{"discard:mkdir"}
@@ -496,6 +528,14 @@ func exec(s Script) (v *vstat.Violation, classes []string) {
 	}
 	// settle: install a fresh valid pair
 	k := s.Settle.Pair
+	if s.OutageMs > 0 && s.Layout != "k8s" {
+		os.WriteFile(w.keyPath, content("key", "half", k), 0o644)
+		time.Sleep(time.Duration(s.OutageMs) * time.Millisecond)
+		classes = append(classes, "nothing-loadable-on-disk-for-seconds-before-the-settled-pair")
+	}
+	if s.PEMStyle != "" {
+		classes = append(classes, "settled-pair-spelled:"+s.PEMStyle)
+	}
 	switch s.Settle.Style {
 	case "inplace-cert-first":
 		w.apply(Step{Op: "inplace", File: "cert", Content: "full", Pair: k})
@@ -650,7 +690,7 @@ func exec(s Script) (v *vstat.Violation, classes []string) {
 		// the files on disk must really hold the settled pair (guards against a harness slip)
 		cb, _ := os.ReadFile(w.certPath)
 		kb, _ := os.ReadFile(w.keyPath)
-		if !bytes.Equal(cb, ps[k].cert) || !bytes.Equal(kb, ps[k].key) {
+		if !bytes.Equal(cb, styled(ps[k].cert, k)) || !bytes.Equal(kb, styled(ps[k].key, k)) {
 			return nil, append(classes, "discard:settle-did-not-reach-disk")
 		}
 		ch, _ := presented()
@@ -689,7 +729,7 @@ func exec(s Script) (v *vstat.Violation, classes []string) {
 
 func TestReload(t *testing.T) {
 	getPairs()
-	col.Mandatory("idle-proxy-no-gc:rename-or-swap", "layout:flat", "layout:k8s", "settle:swap", "settle:inplace-key-first", "settle:rename-cert-first", "broken-intermediate-state", "two-update-styles", "then:alt-chain", "then:renewal", "bundle-written-block-by-block", "paths-not-in-clean-form", "many-rotations-under-handshake-load")
+	col.Mandatory("settled-pair-spelled:crlf", "idle-proxy-no-gc:rename-or-swap", "layout:flat", "layout:k8s", "settle:swap", "settle:inplace-key-first", "settle:rename-cert-first", "broken-intermediate-state", "two-update-styles", "then:alt-chain", "then:renewal", "bundle-written-block-by-block", "paths-not-in-clean-form", "many-rotations-under-handshake-load")
 	vstat.Run(t, vstat.Spec[Script]{Col: col, Quick: 150, Thorough: 4000, Gen: gen,
 		Exec: func(s Script) *vstat.Violation {
 			v, cl := exec(s)
